@@ -893,3 +893,14 @@ package mail
 //@ at mail.Client.sendSingleMsg mail.Msg.WriteTo#1 before assert[C03:nothing-before-the-message] writer.sinkacc == 0
 //@ at mail.Client.sendSingleMsg mail.Msg.WriteTo#1 after ghost[C03:g] world.afterrender = writer.sinkacc
 //@ at mail.Client.sendSingleMsg io.Closer.Close#1 before assert[C03:nothing-after-the-message] writer.sinkacc == world.afterrender
+
+// C10 (continued): the parser does not fix a boundary on the Msg - with a fixed boundary every multipart layer of
+// the second rendering would use the same delimiter (SetBoundary documents that this only works for one layer)
+//@ func mail.parseEMLMultipart (params, bodybuf, msg) (err)
+//@   ensures[C10:no-fixed-boundary] msg.boundary == old(msg.boundary)
+//@ func mail.parseEMLBodyParts (parsedMsg, bodybuf, msg) (err)
+//@   ensures[C10:no-fixed-boundary] msg.boundary == old(msg.boundary)
+//@ func mail.parseEMLHeaders (mailHeader, msg) (err)
+//@   ensures[C10:no-fixed-boundary] msg.boundary == old(msg.boundary)
+//@ func mail.parseEML (parsedMsg, bodybuf, msg) (err)
+//@   ensures[C10:no-fixed-boundary] msg.boundary == old(msg.boundary)
